@@ -504,6 +504,7 @@ def run(ctx: Ctx, rep: Report, tier: str) -> None:  # noqa: C901
         if cons_ok:
             rep.ok(f"{ls.qualname}: path storing all four views", "_ports = f(_items), _sport = g(_ports)", where=where(ls))
     numerals_as_text(ctx, rep)
+    views_accept_boundaries(ctx, rep)
     validated_is_returned(ctx, rep)
     operand_range(ctx, rep)
     rep.rule("R08.5")
@@ -636,6 +637,44 @@ NUMERAL_SLICE = [
     "Port.sport.setter",
     "Port.items.setter",
 ]
+
+
+BOUNDARY_WITNESSES = [
+    # (setter, parameter, value the paired getter can return, why it can)
+    ("Port.sport.setter", "\"\"", "", "an expression that denotes no port ('lt 1', 'gt 65535', no expression) has the range string ''"),
+    ("Port.ports.setter", "[]", [], "an expression that denotes no port has the empty port list"),
+    ("Port.items.setter", "[]", [], "the empty expression has no operands"),
+]
+
+
+def views_accept_boundaries(ctx: Ctx, rep: Report, rid: str = "R08.9") -> None:
+    """A writable view accepts every value its own getter can return, in particular the boundary values (empty port
+    set): no path of the setter that is feasible for the witness ends in a raise inside the setter itself."""
+    from ..pathsem import feasible
+
+    rep.rule(rid)
+    for q, shown, witness, why in BOUNDARY_WITNESSES:
+        f = ctx.prog.find_func(q)
+        if f is None or len(f.params) < 2:
+            continue
+        rep.instance()
+        param = f.params[1]
+        bad = None
+        for p in function_paths(ctx.cfg(f)):
+            if not p.raises:
+                continue
+            # only raises written in the setter itself (a path ending at the raise exit through a `raise` statement)
+            if not any(nd.kind == "stmt" and isinstance(nd.ast, ast.Raise) for nd, _ in p.nodes):
+                continue
+            if feasible(p, ctx.folder, f, {param: witness}) is True:
+                bad = p
+                break
+        if bad is not None:
+            rz = next(nd.ast for nd, _ in bad.nodes if nd.kind == "stmt" and isinstance(nd.ast, ast.Raise))
+            rep.violation(q, f"{param} = {shown}: {snippet(rz)}", f"the setter rejects {shown}, but {why}: assigning the view's own value back raises instead of leaving the expression unchanged", where(f, rz), inp='p = Port("lt 1", protocol="tcp"); p.sport = p.sport')
+        else:
+            rep.ok(f"{q}: {param} = {shown}", "no raise statement of the setter is reachable for this value of the paired getter", where=where(f))
+    rep.floor(3, "writable views of Port")
 
 
 def numerals_as_text(ctx: Ctx, rep: Report, rid: str = "R08.7") -> None:
